@@ -13,6 +13,18 @@ use std::process::{Command, Stdio};
 use std::sync::Mutex;
 use std::sync::atomic::{AtomicU64, Ordering};
 
+pub static CHILD_ACTION_BASE: AtomicU64 = AtomicU64::new(0);
+
+/// Called by resumable scenarios at the start of action `k` (index within the slice being executed).
+pub fn progress(k: usize) {
+    if CHILD_RUN.load(Ordering::Relaxed) != u64::MAX {
+        println!("P {}", k as u64 + CHILD_ACTION_BASE.load(Ordering::Relaxed));
+    }
+}
+
+/// run index of the supervised child currently executing (u64::MAX when not a child)
+pub static CHILD_RUN: AtomicU64 = AtomicU64::new(u64::MAX);
+
 #[derive(Clone, Copy, Debug, PartialEq, Eq)]
 pub enum Tier {
     Quick,
@@ -72,9 +84,23 @@ pub struct RunStats {
     pub shape: u64,
     pub digest: u64,
     pub notes: Vec<String>,
+    /// violations recorded by scenarios that keep going after a failure (one per class per run)
+    #[serde(skip)]
+    pub extra: Vec<Violation>,
 }
 
 impl RunStats {
+    /// record a violation and continue the run (used where many independent deliveries share a run)
+    pub fn record(&mut self, v: Violation) {
+        if self.extra.len() < 64 && !self.extra.iter().any(|e| e.invariant == v.invariant) {
+            let run = CHILD_RUN.load(Ordering::Relaxed);
+            if run != u64::MAX {
+                // supervised child: report at once, the process may not survive the run
+                println!("V {run} {}", serde_json::to_string(&v).unwrap());
+            }
+            self.extra.push(v);
+        }
+    }
     pub fn fault(&mut self, k: &str) {
         *self.faults.entry(k.to_string()).or_insert(0) += 1;
         self.shape_tag(k);
@@ -140,6 +166,11 @@ pub trait Scenario: Sync + Send + 'static {
     }
     fn generate(&self, rng: &mut Rng, tier: Tier) -> (Self::Cfg, Vec<Self::Act>);
     fn execute(&self, cfg: &Self::Cfg, acts: &[Self::Act], st: &mut RunStats) -> Result<(), Violation>;
+    /// actions are independent of each other (a run may be resumed after action k when a
+    /// supervised child died inside action k)
+    fn resumable(&self) -> bool {
+        false
+    }
     /// simpler variants of one action (operand shrinking); default none
     fn shrink_action(&self, _a: &Self::Act) -> Vec<Self::Act> {
         vec![]
@@ -154,8 +185,10 @@ pub trait DynScenario: Sync + Send {
     fn name(&self) -> &'static str;
     fn runs(&self, tier: Tier) -> u64;
     fn isolate(&self) -> bool;
+    fn resumable(&self) -> bool;
     fn gen_script(&self, seed: u64, tier: Tier) -> ScriptJson;
     fn run_one(&self, seed: u64, tier: Tier, st: &mut RunStats) -> Result<(), Violation>;
+    fn run_one_from(&self, seed: u64, tier: Tier, from: usize, st: &mut RunStats) -> Result<(), Violation>;
     fn exec_json(&self, script: &ScriptJson, st: &mut RunStats) -> Result<(), Violation>;
     fn shrink_action_json(&self, a: &Value) -> Vec<Value>;
     fn shrink_cfg_json(&self, c: &Value) -> Vec<Value>;
@@ -179,10 +212,21 @@ impl<S: Scenario> DynScenario for S {
             actions: acts.iter().map(|a| serde_json::to_value(a).expect("act to json")).collect(),
         }
     }
+    fn resumable(&self) -> bool {
+        Scenario::resumable(self)
+    }
     fn run_one(&self, seed: u64, tier: Tier, st: &mut RunStats) -> Result<(), Violation> {
         let mut rng = Rng::new(seed);
         let (cfg, acts) = self.generate(&mut rng, tier);
         self.execute(&cfg, &acts, st)
+    }
+    fn run_one_from(&self, seed: u64, tier: Tier, from: usize, st: &mut RunStats) -> Result<(), Violation> {
+        let mut rng = Rng::new(seed);
+        let (cfg, acts) = self.generate(&mut rng, tier);
+        CHILD_ACTION_BASE.store(from as u64, Ordering::Relaxed);
+        let r = self.execute(&cfg, &acts[from.min(acts.len())..], st);
+        CHILD_ACTION_BASE.store(0, Ordering::Relaxed);
+        r
     }
     fn exec_json(&self, script: &ScriptJson, st: &mut RunStats) -> Result<(), Violation> {
         let cfg: S::Cfg = match serde_json::from_value(script.cfg.clone()) {
@@ -238,7 +282,18 @@ fn source_line(file: &str, line: u32) -> Option<String> {
             .unwrap_or_default();
         cache.insert(file.to_string(), lines);
     }
-    cache.get(file).and_then(|v| v.get(line as usize - 1).cloned())
+    cache.get(file).and_then(|v| {
+        let i = (line as usize).checked_sub(1)?;
+        let mut t = v.get(i)?.clone();
+        // a statement that opens a bracket at end of line is identified together with its next line
+        let mut j = i + 1;
+        while (t.ends_with('(') || t.ends_with('{') || t.ends_with(',') || t.ends_with("self")) && j < v.len() && j < i + 3 {
+            t.push(' ');
+            t.push_str(&v[j]);
+            j += 1;
+        }
+        Some(t)
+    })
 }
 
 pub fn install_panic_hook() {
@@ -264,7 +319,14 @@ pub fn install_panic_hook() {
                 if let Some(pos) = t.find("datasketches::") {
                     let f = &t[pos..];
                     if !f.starts_with("datasketches::verif") {
-                        lib_frame = Some(f.split("::h").next().unwrap_or(f).to_string());
+                        // strip the trailing ::h<16 hex> symbol hash
+                        let mut name = f.to_string();
+                        if let Some(p) = name.rfind("::h") {
+                            if name.len() - p == 19 && name[p + 3..].chars().all(|c| c.is_ascii_hexdigit()) {
+                                name.truncate(p);
+                            }
+                        }
+                        lib_frame = Some(name);
                         break;
                     }
                 }
@@ -523,6 +585,9 @@ fn batch_threads(
                     let mut st = RunStats::default();
                     let out = guarded(|| sc.run_one(seed, tier, &mut st));
                     agg.add_run(&st);
+                    for v in st.extra.drain(..) {
+                        record_hit(&mut hits, i, seed, v);
+                    }
                     match out {
                         Outcome::Ok => {}
                         Outcome::Violation(v) => record_hit(&mut hits, i, seed, v),
@@ -560,17 +625,22 @@ fn batch_threads(
 // --- supervised children -----------------------------------------------------------------------
 
 /// Child side: run [lo,hi) sequentially, reporting progress on stdout.
-pub fn child_main(sc: &dyn DynScenario, verif_seed: u64, tier: Tier, lo: u64, hi: u64) {
-    let stdout = std::io::stdout();
-    let mut out = stdout.lock();
+pub fn child_main(sc: &dyn DynScenario, verif_seed: u64, tier: Tier, lo: u64, hi: u64, resume_from: usize) {
+    let mut out = std::io::stdout();
     let mut agg = Agg::default();
     for i in lo..hi {
         let seed = rng::run_seed(verif_seed, sc.name(), i);
         writeln!(out, "B {i}").ok();
         out.flush().ok();
+        CHILD_RUN.store(i, Ordering::Relaxed);
         let mut st = RunStats::default();
-        let o = guarded(|| sc.run_one(seed, tier, &mut st));
+        let o = if i == lo && resume_from > 0 {
+            guarded(|| sc.run_one_from(seed, tier, resume_from, &mut st))
+        } else {
+            guarded(|| sc.run_one(seed, tier, &mut st))
+        };
         agg.add_run(&st);
+        st.extra.clear(); // already reported by RunStats::record
         match o {
             Outcome::Ok => {}
             Outcome::Violation(v) => {
@@ -580,7 +650,7 @@ pub fn child_main(sc: &dyn DynScenario, verif_seed: u64, tier: Tier, lo: u64, hi
                 writeln!(out, "H {i} {}", serde_json::to_string(&e).unwrap()).ok();
             }
         }
-        if (i - lo) % 256 == 255 {
+        {
             writeln!(out, "A {}", serde_json::to_string(&agg).unwrap()).ok();
             agg = Agg::default();
         }
@@ -613,7 +683,8 @@ pub fn classify_death(status: &std::process::ExitStatus, stderr_tail: &str, time
     if let Some(pos) = stderr_tail.rfind("VERIF-ALLOC-CAP size=") {
         let rest = &stderr_tail[pos + 21..];
         let n: String = rest.chars().take_while(|c| c.is_ascii_digit()).collect();
-        return Violation::new("abort:alloc", format!("single allocation request of {n} bytes refused (hard cap) -> abort"));
+        let label = rest.split("label=").nth(1).map(|l| l.lines().next().unwrap_or("").trim().to_string()).unwrap_or_default();
+        return Violation::new(format!("abort:alloc|{label}"), format!("single allocation request of {n} bytes refused (hard cap 1 GiB) during {label} -> process abort"));
     }
     if stderr_tail.contains("memory allocation of") {
         return Violation::new("abort:alloc", format!("allocation failure: {}", stderr_tail.lines().last().unwrap_or("")));
@@ -630,7 +701,7 @@ pub fn classify_death(status: &std::process::ExitStatus, stderr_tail: &str, time
     )
 }
 
-const HANG_BUDGET_S: u64 = 60;
+const HANG_BUDGET_S: u64 = 30;
 
 /// Parent side of one child covering [lo,hi); restarts after deaths.
 fn supervise_range(
@@ -644,6 +715,8 @@ fn supervise_range(
     herr: &mut Vec<String>,
 ) {
     let exe = std::env::current_exe().expect("current_exe");
+    let mut resume_from: usize = 0;
+    let mut deaths_in_run = 0u32;
     while lo < hi {
         let mut cmd = Command::new(&exe);
         cmd.arg("child")
@@ -652,6 +725,8 @@ fn supervise_range(
             .arg(verif_seed.to_string())
             .arg(lo.to_string())
             .arg(hi.to_string())
+            .arg(resume_from.to_string())
+            .env("RUST_BACKTRACE", "0")
             .stdin(Stdio::null())
             .stdout(Stdio::piped())
             .stderr(Stdio::piped());
@@ -665,7 +740,19 @@ fn supervise_range(
             let _ = stderr.read_to_end(&mut s);
             let s = String::from_utf8_lossy(&s).to_string();
             let n = s.len();
-            s[n.saturating_sub(2000)..].to_string()
+            if n <= 4000 {
+                s
+            } else {
+                let mut a = 2000;
+                while !s.is_char_boundary(a) {
+                    a -= 1;
+                }
+                let mut b = n - 2000;
+                while !s.is_char_boundary(b) {
+                    b += 1;
+                }
+                format!("{}\n...\n{}", &s[..a], &s[b..])
+            }
         });
         // watchdog: kill the child if no progress line for HANG_BUDGET_S
         let progress = std::sync::Arc::new(AtomicU64::new(0));
@@ -699,6 +786,7 @@ fn supervise_range(
             })
         };
         let mut in_progress: Option<u64> = None;
+        let mut action: Option<usize> = None;
         let mut finished = false;
         for line in BufReader::new(stdout).lines() {
             let Ok(line) = line else { break };
@@ -706,7 +794,11 @@ fn supervise_range(
             let (tag, rest) = line.split_at(1.min(line.len()));
             let rest = rest.trim_start();
             match tag {
-                "B" => in_progress = rest.parse().ok(),
+                "B" => {
+                    in_progress = rest.parse().ok();
+                    action = None;
+                }
+                "P" => action = rest.parse().ok(),
                 "V" => {
                     if let Some((r, js)) = rest.split_once(' ') {
                         if let (Ok(r), Ok(v)) = (r.parse::<u64>(), serde_json::from_str::<Violation>(js)) {
@@ -739,8 +831,23 @@ fn supervise_range(
         let r = in_progress.unwrap_or(lo);
         let v = classify_death(&status, &tail, timed_out.load(Ordering::Relaxed));
         record_hit(hits, r, rng::run_seed(verif_seed, sc.name(), r), v);
-        agg.runs += 1; // the run that died
-        lo = r + 1;
+        if r != lo {
+            deaths_in_run = 0;
+        }
+        deaths_in_run += 1;
+        match action {
+            Some(k) if sc.resumable() && deaths_in_run < 40 => {
+                // resume the same run after the action that killed the child
+                lo = r;
+                resume_from = k + 1;
+            }
+            _ => {
+                agg.runs += 1; // the run that died
+                lo = r + 1;
+                resume_from = 0;
+                deaths_in_run = 0;
+            }
+        }
     }
 }
 
@@ -800,12 +907,17 @@ fn batch_supervised(
 
 /// Execute a script and return the violation class it produces, if any.
 /// For isolating scenarios this spawns `replay-inner` so that aborts are survivable.
-pub fn exec_script_class(sc: &dyn DynScenario, script: &ScriptJson, scratch: &std::path::Path) -> Result<Option<Violation>, String> {
+pub fn exec_script_class(sc: &dyn DynScenario, script: &ScriptJson, scratch: &std::path::Path) -> Result<Vec<Violation>, String> {
     if !sc.isolate() {
         let mut st = RunStats::default();
-        return match guarded(|| sc.exec_json(script, &mut st)) {
-            Outcome::Ok => Ok(None),
-            Outcome::Violation(v) => Ok(Some(v)),
+        let o = guarded(|| sc.exec_json(script, &mut st));
+        let mut all: Vec<Violation> = st.extra.drain(..).collect();
+        return match o {
+            Outcome::Ok => Ok(all),
+            Outcome::Violation(v) => {
+                all.push(v);
+                Ok(all)
+            }
             Outcome::HarnessError(e) => Err(e),
         };
     }
@@ -814,7 +926,7 @@ pub fn exec_script_class(sc: &dyn DynScenario, script: &ScriptJson, scratch: &st
     std::fs::write(&path, serde_json::to_vec(&body).unwrap()).map_err(|e| e.to_string())?;
     let exe = std::env::current_exe().map_err(|e| e.to_string())?;
     let mut cmd = Command::new(exe);
-    cmd.arg("replay-inner").arg(&path).stdin(Stdio::null()).stdout(Stdio::piped()).stderr(Stdio::piped());
+    cmd.arg("replay-inner").arg(&path).env("RUST_BACKTRACE", "0").stdin(Stdio::null()).stdout(Stdio::piped()).stderr(Stdio::piped());
     set_child_limits(&mut cmd);
     let mut child = cmd.spawn().map_err(|e| e.to_string())?;
     // simple timeout loop
@@ -838,29 +950,39 @@ pub fn exec_script_class(sc: &dyn DynScenario, script: &ScriptJson, scratch: &st
     let _ = std::fs::remove_file(&path);
     let so = String::from_utf8_lossy(&out.stdout);
     let se = String::from_utf8_lossy(&out.stderr);
+    let mut all = vec![];
+    let mut done = false;
     for l in so.lines() {
         if let Some(js) = l.strip_prefix("V ") {
             if let Ok(v) = serde_json::from_str::<Violation>(js) {
-                return Ok(Some(v));
+                all.push(v);
             }
         }
         if let Some(e) = l.strip_prefix("H ") {
             return Err(e.to_string());
         }
-        if l == "OK" {
-            return Ok(None);
+        if l == "DONE" {
+            done = true;
         }
     }
-    Ok(Some(classify_death(&out.status, &se, timed_out)))
+    if !done {
+        all.push(classify_death(&out.status, &se, timed_out));
+    }
+    Ok(all)
 }
 
 pub fn replay_inner_main(sc: &dyn DynScenario, script: &ScriptJson) {
     let mut st = RunStats::default();
-    match guarded(|| sc.exec_json(script, &mut st)) {
-        Outcome::Ok => println!("OK"),
+    let o = guarded(|| sc.exec_json(script, &mut st));
+    for v in st.extra.drain(..) {
+        println!("V {}", serde_json::to_string(&v).unwrap());
+    }
+    match o {
+        Outcome::Ok => {}
         Outcome::Violation(v) => println!("V {}", serde_json::to_string(&v).unwrap()),
         Outcome::HarnessError(e) => println!("H {e}"),
     }
+    println!("DONE");
 }
 
 // --- minimisation --------------------------------------------------------------------------------
@@ -880,7 +1002,7 @@ impl Minimiser<'_> {
         }
         self.tests += 1;
         match exec_script_class(self.sc, s, &self.scratch) {
-            Ok(Some(v)) if v.invariant == self.class => Some(v),
+            Ok(vs) => vs.into_iter().find(|v| v.invariant == self.class),
             _ => None,
         }
     }
@@ -992,13 +1114,14 @@ pub fn run_part(property: &str, sc: &dyn DynScenario, tier: Tier, replay_dir: &s
             let mut m = Minimiser {
                 sc,
                 class: class.clone(),
-                budget: if sc.isolate() { 400 } else { 3000 },
+                budget: if class == "abort:hang" { 0 } else if sc.isolate() { 400 } else { 3000 },
                 scratch: replay_dir.to_path_buf(),
                 tests: 0,
             };
             // make sure the regenerated script fails the same way before minimising
-            match exec_script_class(sc, &script, replay_dir) {
-                Ok(Some(v0)) if v0.invariant == class => {
+            let first = if class == "abort:hang" { Ok(vec![hit.v.clone()]) } else { exec_script_class(sc, &script, replay_dir) };
+            match first.map(|vs| (vs.iter().map(|v| v.invariant.clone()).collect::<Vec<_>>(), vs.into_iter().find(|v| v.invariant == class))) {
+                Ok((_, Some(v0))) => {
                     let (s, v) = m.minimise(script, v0);
                     let to = s.actions.len();
                     (s, v, to)
@@ -1007,7 +1130,7 @@ pub fn run_part(property: &str, sc: &dyn DynScenario, tier: Tier, replay_dir: &s
                     herr.push(format!(
                         "non-reproducing violation class {class} at run {} (regenerated script gave {:?})",
                         hit.run,
-                        other.map(|o| o.map(|v| v.invariant))
+                        other.map(|o| o.0)
                     ));
                     continue;
                 }
